@@ -1004,7 +1004,15 @@ class XandikosBackend(webdav.Backend):
     def _mark_as_principal(self, path):
         self._user_principals.add(posixpath.normpath(path))
 
+    @staticmethod
+    def _is_control_path(relpath):
+        # The control directory of a Git store (and anything in it) is not
+        # part of the DAV namespace.
+        return GIT_PATH in relpath.split(posixpath.sep)
+
     def create_collection(self, relpath):
+        if self._is_control_path(posixpath.normpath(relpath)):
+            raise FileNotFoundError(relpath)
         p = self._map_to_file_path(relpath)
         return Collection(self, relpath, TreeGitStore.create(p))
 
@@ -1024,6 +1032,8 @@ class XandikosBackend(webdav.Backend):
             raise ValueError("relpath %r should start with /")
         if relpath == "/":
             return RootPage(self)
+        if self._is_control_path(relpath):
+            return None
         p = self._map_to_file_path(relpath)
         if p is None:
             return None
